@@ -1,6 +1,7 @@
 import SF.Props.C04
 import SF.Props.C10
 import SF.Lemmas.Real
+import SF.Lemmas.SsStable
 import Mathlib.Analysis.SpecialFunctions.Exp
 /-
   C09 — Recursive filters are stable and have fading memory for every window length.
@@ -13,9 +14,13 @@ import Mathlib.Analysis.SpecialFunctions.Exp
     the stages of LaguerreFilter / the EMA are instances.
   * coefficient facts for every admissible N (at ℝ): 0 < a1 = exp(−c/N) < 1 for both smoother constants, so the pole
     radius of SuperSmoother and of the TrendFlex/ReFlex smoother is < 1; 0 < 2/(N+1) ≤ 1 for Ema / CyberCycle / LaguerreRSI.
-  Not yet proved (decided by the long bounded-stream and common-tail runs of `./check C09`): the two-pole kernel bounds
-  for SuperSmoother / RoofingFilter / CyberCycle and the convergence of the normalised outputs of TrendFlex / ReFlex /
-  LaguerreRSI / EhlersFisherTransform (`…_partial` in DESIGN.md).
+  * SuperSmoother (and the smoother inside TrendFlex / ReFlex), every N ≥ 1, at ℝ: BIBO with the length-independent bound
+    |c1|·B/(1−a1)² and geometric fading memory (contraction factor (1+a1)/2 per step once the streams have merged), via
+    the factorisation of the two-pole section through its complex pole a1·e^{iθ} (`twoPole_bibo` is the generic statement
+    and also covers the double real pole of the RoofingFilter / CyberCycle high-pass once |1−α| < 1 is known).
+  Not yet proved (decided by the long bounded-stream and common-tail runs of `./check C09`): |1−α| < 1 for RoofingFilter
+  (N ≥ 2), CyberCycle's kernel bound, and the convergence of the normalised outputs of TrendFlex / ReFlex / LaguerreRSI /
+  EhlersFisherTransform (`…_partial` in DESIGN.md).
 -/
 namespace SF.C09
 open SF SF.Spec
@@ -120,4 +125,49 @@ theorem pole_product (a1 θ : ℝ) (h0 : 0 < a1) (h1 : a1 < 1) :
   constructor
   · nlinarith [sq_nonneg a1, mul_pos h0 h0]
   · nlinarith
+/-- **SuperSmoother is BIBO stable for EVERY window length N ≥ 1, with a bound independent of the stream length**:
+inputs in [−B, B] give |output| ≤ |c1|·B/(1−a1)², a1 = exp(−1.414·π/N) < 1 -/
+theorem superSmoother_bibo (N : Nat) (hN : 0 < N) (B : ℝ) (xs : List ℝ) (hx : ∀ x ∈ xs, |x| ≤ B) (v : ℝ)
+    (h : Spec.superSmoother N xs = some v) :
+    |v| ≤ |(Spec.ssCoef (α := ℝ) N).c1| * B / (1 - SsStable.ssA N) ^ 2 := SsStable.superSmoother_bibo N hN B xs hx v h
+
+/-- … and so does the view itself (state machine), through C11 -/
+theorem superSmoother_view_bibo (N : Nat) (hN : 0 < N) (B : ℝ) (xs : List ℝ) (hx : ∀ x ∈ xs, |x| ≤ B) (v : ℝ)
+    (h : (ssCore (α := ℝ) N).outAfter xs = .ok (some v)) :
+    |v| ≤ |(Spec.ssCoef (α := ℝ) N).c1| * B / (1 - SsStable.ssA N) ^ 2 := by
+  rw [SS.outAfter_eq N hN] at h
+  exact SsStable.superSmoother_bibo N hN B xs hx v (by simpa using h)
+
+/-- the smoother inside TrendFlex / ReFlex (first-value initial condition) is BIBO stable for every N ≥ 1 -/
+theorem flex_smoother_bibo (N : Nat) (hN : 0 < N) (B : ℝ) (x0 : ℝ) (xs : List ℝ) (hx : ∀ x ∈ x0 :: xs, |x| ≤ B) :
+    ∀ f ∈ Spec.smoothSeq (Spec.flexCoef (α := ℝ) N) x0 (x0 :: xs),
+      |f| ≤ |(Spec.flexCoef (α := ℝ) N).c1| * B / (1 - SsStable.flexA N) ^ 2 := SsStable.flex_smoother_bibo N hN B x0 xs hx
+
+/-- the generic statement: ANY two-pole section with complex-conjugate (or double real) poles of modulus a < 1 is BIBO -/
+theorem twoPole_bibo (c : Spec.Coef ℝ) (a θ : ℝ) (ha0 : 0 ≤ a) (ha1 : a < 1)
+    (hb1 : c.b1 = 2 * a * Real.cos θ) (hc3 : c.c3 = -(a * a)) (B pad : ℝ) (hpad : |pad| ≤ B)
+    (xs : List ℝ) (hx : ∀ x ∈ xs, |x| ≤ B) :
+    ∀ f ∈ Spec.smoothSeq c pad xs, |f| ≤ |c.c1| * B / (1 - a) ^ 2 := TwoPole.smoothSeq_bibo c a θ ha0 ha1 hb1 hc3 B pad hpad xs hx
+
+/-- **fading memory of SuperSmoother**: by linearity the difference of two runs is the run on the difference stream
+(`SsStable.diff_is_run_on_diff`); once that stream is 0 the Lyapunov functional V ≥ |difference of outputs| is multiplied by
+ρ = (1 + a1)/2 < 1 at every further step — geometric convergence, for every N ≥ 1 -/
+theorem superSmoother_fading (N : Nat) (hN : 0 < N) (d : List ℝ) (k : Nat) :
+    TwoPole.V (TwoPole.pole (SsStable.ssA N) (44422 / 10000 / N)) (SsStable.ssA N)
+        (SS.foldState (Spec.ssCoef (α := ℝ) N) 0 (d ++ [0] ++ List.replicate k 0))
+      ≤ ((1 + SsStable.ssA N) / 2) ^ k *
+        TwoPole.V (TwoPole.pole (SsStable.ssA N) (44422 / 10000 / N)) (SsStable.ssA N)
+          (SS.foldState (Spec.ssCoef (α := ℝ) N) 0 (d ++ [0])) := by
+  have ha := SsStable.ssA_range N hN
+  have hc := SsStable.ssCoef_form N
+  exact TwoPole.zero_tail_decay _ (SsStable.ssA N) _ ha.1.le ha.2 hc.1 hc.2 0 d k
+
+theorem fading_dominates (N : Nat) (hN : 0 < N) (st : List ℝ × ℝ) :
+    |st.1.headD 0| ≤ TwoPole.V (TwoPole.pole (SsStable.ssA N) (44422 / 10000 / N)) (SsStable.ssA N) st :=
+  TwoPole.abs_head_le_V _ _ (SsStable.ssA_range N hN).1.le (SsStable.ssA_range N hN).2 st
+
+theorem contraction_factor (N : Nat) (hN : 0 < N) : 0 < (1 + SsStable.ssA N) / 2 ∧ (1 + SsStable.ssA N) / 2 < 1 := by
+  have := SsStable.ssA_range N hN
+  constructor <;> linarith [this.1, this.2]
+
 end SF.C09.Real
